@@ -250,6 +250,25 @@ theorem bodyReadonly_ok {b : Body} {h : Bool} (hb : bodyOk b h = true) : bodyOk 
     · unfold roArraysOk
       cases hv : b.varr <;> cases hm : b.mask <;> simp [maskToReadonly]
 
+theorem wodBody_ok {b : Body} {h : Bool} (hb : bodyOk b h = true) : bodyOk (wodBody b) h = true := by
+  unfold wodBody
+  split
+  · simp only [bodyOk, bodyClauses, List.all_cons, List.all_nil, Bool.and_eq_true, id] at hb ⊢
+    obtain ⟨c1, c2, c3, c4, c5, c6, c7, c8, c9, c10, c11⟩ := hb
+    refine ⟨c1, c2, maskToReadonly_ok c3, c4, c5, c6, c7, c8, c9, c10, ?_⟩
+    unfold roArraysOk at c11 ⊢
+    cases hr : b.readonly <;> cases hm : b.mask <;> simp_all [maskToReadonly]
+  · exact hb
+
+theorem wodOf_facts (d : ObjDump) (hd : WF d = true) :
+    bodyOk (wodOf d).body false = true ∧ (wodOf d).body.kind = d.body.kind ∧ (wodOf d).body.shape = d.body.shape
+    ∧ (wodOf d).body.numer = d.body.numer ∧ (wodOf d).body.cls = d.body.cls ∧ wodOf d = bare (wodOf d).body := by
+  have hb := bodyOk_false_of ((wf_iff d).1 hd).1
+  unfold wodOf
+  split
+  · exact ⟨hb, rfl, rfl, rfl, rfl, rfl⟩
+  · refine ⟨wodBody_ok hb, ?_, ?_, ?_, ?_, rfl⟩ <;> (unfold wodBody; simp only [bare]; split <;> rfl)
+
 /-- a read-only float Scalar of shape (2,3) and an int Scalar of shape (3,) with a derivative of its own -/
 def startP : ObjDump :=
   bare { cls := .scalar, kind := .float, varr := true, vshape := [2, 3], vwritable := false,
@@ -283,11 +302,13 @@ theorem insertDeriv_wf (p d : ObjDump) (key : String) (ov : Bool) (r : ObjDump)
   · cases h
   have hok' : (classInfo p.body.cls).derivsOk = true := by simpa using hok
   have hn' : p.body.numer = d.body.numer := by simpa using hn
-  have hdb : bodyOk (cloneBare d).body (!d.derivs.isEmpty) = true := ((wf_iff d).1 hd).1
+  obtain ⟨w1, w2, w3, w4, w5, w6⟩ := wodOf_facts d hd
   split at h
   · cases h
   rename_i d1 h1
-  obtain ⟨a1, a2, a3, a4, a5⟩ := asFloat_ok hdb rfl h1
+  obtain ⟨a1, a2', a3', a4, a5⟩ := asFloat_ok w1 w6 h1
+  have a2 : d1.body.shape = d.body.shape := a2'.trans w3
+  have a3 : d1.body.numer = d.body.numer := a3'.trans w4
   split at h
   · cases h
   rename_i d2 h2
@@ -296,10 +317,10 @@ theorem insertDeriv_wf (p d : ObjDump) (key : String) (ov : Bool) (r : ObjDump)
       ∧ bodyOk d2.body false = true := by
     split at h2
     · obtain ⟨b1, b2, b3, b4, -⟩ := broadcastTo_ok a4 a5 h2
-      exact ⟨by rw [b3, a1], b1, by rw [b2, a3]; rfl, b4⟩
+      exact ⟨by rw [b3, a1], b1, by rw [b2, a3], b4⟩
     · rename_i hs
       cases h2
-      exact ⟨a1, by simpa using hs, by rw [a3]; rfl, a4⟩
+      exact ⟨a1, by simpa using hs, by rw [a3], a4⟩
   obtain ⟨c1, c2, c3, c4⟩ := hb2
   cases h
   apply store_deriv_wf p _ key hp hok'
@@ -449,7 +470,8 @@ theorem wod_wf (o : ObjDump) (ho : WF o = true) : WF (wod o) = true := by
   · exact ho
   · obtain ⟨hb, -, -⟩ := (wf_iff o).1 ho
     rw [wf_iff]
-    exact ⟨bodyOk_false_of hb, by simp [cloneBare, bare], by simp [cloneBare, bare, attrsOk]⟩
+    refine ⟨?_, by simp [wodOf, bare], by simp [wodOf, bare, attrsOk]⟩
+    exact (wodOf_facts o ho).1
 
 /-- reading a derivative (`obj.d_dt`, `obj.derivs['t']`) hands back a well-formed object -/
 theorem deriv_wf (o : ObjDump) (key : String) (d : ObjDump) (ho : WF o = true) (h : lookup key o.derivs = some d) :
